@@ -1108,6 +1108,10 @@ def solve(a, b, what='solve', overwrite_a=False, overwrite_b=False, **k):
     check_rhs(a, b, what)
     r = Arr([a.shape[1]] + list(b.shape[1:]), [dual_legs(a.legs[1])] + list(b.legs[1:]), A.join_dtype(a.dt, b.dt), None, {'solve': (a, b)}, what)
     A.CTX.event('solve', matrix=a, rhs=b, result=r, what=what)
+    asm = k.get('assume_a')
+    if asm in ('sym', 'symmetric') and a.dt == 'complex':
+        A.CTX.event('solve-structure', matrix=a, assume=asm, detail=f"scipy.linalg.solve(assume_a='{asm}') on a complex matrix: 'sym' means complex symmetric (A = A^T, LAPACK zsysv reads one "
+                    f"triangle and mirrors it WITHOUT conjugation); a Hermitian matrix needs 'her', a general one 'gen'")
     return r
 
 
@@ -1311,7 +1315,7 @@ class FakeScipyLinalg:
     svd = staticmethod(svd)
     qr = staticmethod(qr)
     rq = staticmethod(rq)
-    solve = staticmethod(lambda a, b, **k: solve(a, b, 'lin.solve', **{x: y for x, y in k.items() if x in ('overwrite_a', 'overwrite_b')}))
+    solve = staticmethod(lambda a, b, **k: solve(a, b, 'lin.solve', **{x: y for x, y in k.items() if x in ('overwrite_a', 'overwrite_b', 'assume_a')}))
     lu_factor = staticmethod(lu_factor)
     lu_solve = staticmethod(lu_solve)
     cho_factor = staticmethod(cho_factor)
